@@ -1,6 +1,7 @@
 package main
 
 import (
+	goerr "errors"
 	"fmt"
 	"io/fs"
 	"os"
@@ -23,8 +24,8 @@ func (r *rng) next() uint64 {
 	z = (z ^ (z >> 27)) * 0x94d049bb133111eb
 	return z ^ (z >> 31)
 }
-func (r *rng) intn(n int) int      { return int(r.next() % uint64(n)) }
-func (r *rng) chance(p int) bool   { return r.intn(100) < p }
+func (r *rng) intn(n int) int         { return int(r.next() % uint64(n)) }
+func (r *rng) chance(p int) bool      { return r.intn(100) < p }
 func (r *rng) pick(l []string) string { return l[r.intn(len(l))] }
 
 var regularPool = []string{
@@ -43,19 +44,46 @@ var hostilePool = []string{
 type Gen struct {
 	r       *rng
 	Hostile bool // strings from the hostile alphabet too
-	Tokens  bool // append a unique token to every string
+	Tokens  bool // put a unique token into every string: Uq<n>z in unsafe channels, Sq<n>z in safe ones
 	tok     int
 	MaxKids int
 	// which families of nodes to use
-	NoForeign bool
-	Stats     map[string]int
+	NoForeign   bool
+	NoMulti     bool
+	NoHidden    bool // no error arguments in format calls
+	NoPlusV     bool // no %+v of an error inside a message (it embeds stack traces)
+	NoUserAnnot bool // no unregistered user types that carry hints / details
+	forceUnsafe int  // >0 while generating the arguments of fmt.Errorf: no channel is safe
+	inRef       int  // >0 while generating the reference of a Mark: nothing in it is a safe channel
+	UTokens     []string
+	STokens     []string
+	Stats       map[string]int
 }
 
 func NewGen(seed uint64) *Gen {
 	return &Gen{r: &rng{s: seed}, MaxKids: 3, Stats: map[string]int{}}
 }
 
-func (g *Gen) str() string {
+// ResetTokens starts the token lists of a new case.
+func (g *Gen) ResetTokens() { g.UTokens, g.STokens = nil, nil }
+
+func (g *Gen) token(safe bool) string {
+	g.tok++
+	if safe && g.inRef > 0 && g.forceUnsafe == 0 {
+		// a safe-channel string inside a Mark reference: not retained, not unsafe either
+		return ""
+	}
+	if safe && g.forceUnsafe == 0 {
+		t := fmt.Sprintf("Sq%dz", g.tok)
+		g.STokens = append(g.STokens, t)
+		return t
+	}
+	t := fmt.Sprintf("Uq%dz", g.tok)
+	g.UTokens = append(g.UTokens, t)
+	return t
+}
+
+func (g *Gen) rawStr() string {
 	var s string
 	if g.Hostile && g.r.chance(45) {
 		s = g.r.pick(hostilePool)
@@ -73,50 +101,94 @@ func (g *Gen) str() string {
 		}
 		g.Stats["str:regular"]++
 	}
+	return s
+}
+
+func (g *Gen) strc(safe bool) string {
+	s := g.rawStr()
 	if g.Tokens {
-		g.tok++
-		s = fmt.Sprintf("%sT%dq", s, g.tok)
+		t := g.token(safe)
+		if g.Hostile && g.r.chance(50) {
+			// token in the middle: hostile material on both sides
+			s = s + t + g.r.pick(hostilePool)
+		} else if g.r.chance(50) {
+			s = t + " " + s
+		} else {
+			s = s + " " + t
+		}
 	}
 	return s
 }
 
-// a non-empty regular string without newline (keys, urls, domains)
+// sU: a string passed through an unsafe channel; sS: through a safe channel.
+func (g *Gen) sU() string { return g.strc(false) }
+func (g *Gen) sS() string { return g.strc(true) }
+
+// a non-empty regular string without newline (keys, urls, domains): safe channels
 func (g *Gen) word() string {
 	w := []string{"k1", "k2", "pgcode", "http://issue/1", "https://x.y/z?a=1", "sql", "kv", "n", "req.id", "a b"}
 	s := g.r.pick(w)
 	if g.Tokens {
-		g.tok++
-		s = fmt.Sprintf("%sT%dq", s, g.tok)
+		s = s + g.token(true)
+	}
+	return s
+}
+
+// a path component: unsafe channel
+func (g *Gen) pathWord() string {
+	w := []string{"f1", "data.db", "x y", "store-1"}
+	s := g.r.pick(w)
+	if g.Tokens {
+		s = s + g.token(false)
 	}
 	return s
 }
 
 func (g *Gen) fmtCall(depth int, allowW bool, allowErr bool) []FP {
+	return g.fmtCallX(depth, allowW, allowErr, false)
+}
+
+// litUnsafe: the format string itself is not a safe channel (fmt.Errorf)
+func (g *Gen) fmtCallX(depth int, allowW bool, allowErr bool, litUnsafe bool) []FP {
+	lit := func() string {
+		if litUnsafe {
+			return g.sU()
+		}
+		return g.sS()
+	}
+	if litUnsafe {
+		// nothing given to fmt.Errorf is a safe channel, redact.Safe arguments included
+		g.forceUnsafe++
+		defer func() { g.forceUnsafe-- }()
+	}
 	n := 1 + g.r.intn(4)
 	var out []FP
 	usedW := false
 	for i := 0; i < n; i++ {
 		switch k := g.r.intn(10); {
 		case k < 3:
-			out = append(out, FP{Kind: "lit", S: g.str()})
+			out = append(out, FP{Kind: "lit", S: lit()})
 		case k < 5:
-			out = append(out, FP{Kind: "str", Verb: []string{"s", "v"}[g.r.intn(2)], S: g.str()})
+			out = append(out, FP{Kind: "str", Verb: []string{"s", "v"}[g.r.intn(2)], S: g.sU()})
 		case k < 6:
-			out = append(out, FP{Kind: "safestr", Verb: []string{"s", "v"}[g.r.intn(2)], S: g.str()})
+			out = append(out, FP{Kind: "safestr", Verb: []string{"s", "v"}[g.r.intn(2)], S: g.sS()})
 		case k < 7:
 			out = append(out, FP{Kind: "int", Verb: []string{"d", "v"}[g.r.intn(2)], I: int64(g.r.intn(2000)) - 500})
 		case k < 8:
 			out = append(out, FP{Kind: "safeint", Verb: "d", I: int64(g.r.intn(2000))})
 		default:
-			if allowErr && depth > 0 {
+			if allowErr && depth > 0 && !g.NoHidden {
 				verb := []string{"v", "s", "+v"}[g.r.intn(3)]
+				if g.NoPlusV && verb == "+v" {
+					verb = "v"
+				}
 				if allowW && !usedW && g.r.chance(50) {
 					verb = "w"
 					usedW = true
 				}
 				out = append(out, FP{Kind: "err", Verb: verb, R: g.Tree(depth - 1)})
 			} else {
-				out = append(out, FP{Kind: "lit", S: g.str()})
+				out = append(out, FP{Kind: "lit", S: lit()})
 			}
 		}
 		if i < n-1 && g.r.chance(60) {
@@ -136,36 +208,46 @@ func (g *Gen) Leaf(depth int) *R {
 	}
 	switch g.r.intn(n) {
 	case 0:
-		return &R{Op: "new", S: []string{g.str()}}
+		return &R{Op: "new", S: []string{g.sS()}}
 	case 1:
 		return &R{Op: "newf", Fmt: g.fmtCall(depth, true, true)}
 	case 2:
-		return &R{Op: "unimpl", S: []string{g.urlOrEmpty(), g.maybeEmpty(), g.str()}}
+		return &R{Op: "unimpl", S: []string{g.urlOrEmpty(), g.maybeEmptyS(), g.sU()}}
 	case 3:
 		return &R{Op: "assertf", Fmt: g.fmtCall(depth, true, true)}
 	case 4:
-		return &R{Op: "new", S: []string{g.str()}}
+		return &R{Op: "new", S: []string{g.sS()}}
 	case 5:
-		return &R{Op: "stdnew", S: []string{g.str()}}
+		return &R{Op: "stdnew", S: []string{g.sU()}}
 	case 6:
 		return &R{Op: "sentinel", I: []int64{int64(g.r.intn(10))}}
 	case 7:
-		return &R{Op: "pkgnew", S: []string{g.str()}}
+		return &R{Op: "pkgnew", S: []string{g.sU()}}
 	case 8:
 		return &R{Op: "errno", I: []int64{errnos[g.r.intn(len(errnos))]}}
 	case 9:
-		return &R{Op: []string{"grpcstatus", "gogostatus"}[g.r.intn(2)], I: []int64{int64(1 + g.r.intn(16))}, S: []string{g.str()}}
+		return &R{Op: []string{"grpcstatus", "gogostatus"}[g.r.intn(2)], I: []int64{int64(1 + g.r.intn(16))}, S: []string{g.sU()}}
 	case 10:
 		return &R{Op: "testerror"}
 	case 11:
-		return &R{Op: "fmterrorf", Fmt: g.fmtCall(0, false, false)}
+		return &R{Op: "fmterrorf", Fmt: g.fmtCallX(0, false, false, true)}
 	default:
 		kinds := []string{"plain", "val", "nocmp", "istag", "safedet", "safemsg", "hinter"}
 		k := g.r.pick(kinds)
-		r := &R{Op: "uleaf", S: []string{k, g.str()}, I: []int64{int64(g.r.intn(3))}, Strs: []string{}}
+		if g.NoUserAnnot && k == "hinter" {
+			k = "plain"
+		}
+		msg := ""
+		if k == "safemsg" {
+			// a user type's SafeMessage(): safe locally, an ordinary message after transfer
+			msg = g.rawStr()
+		} else {
+			msg = g.sU()
+		}
+		r := &R{Op: "uleaf", S: []string{k, msg}, I: []int64{int64(g.r.intn(3))}, Strs: []string{}}
 		switch k {
 		case "safedet":
-			r.Strs = []string{g.str(), g.str()}
+			r.Strs = []string{g.rawStr(), g.rawStr()}
 		case "hinter":
 			r.Strs = []string{g.maybeEmpty(), g.maybeEmpty()}
 		}
@@ -177,7 +259,14 @@ func (g *Gen) maybeEmpty() string {
 	if g.r.chance(30) {
 		return ""
 	}
-	return g.str()
+	return g.sU()
+}
+
+func (g *Gen) maybeEmptyS() string {
+	if g.r.chance(30) {
+		return ""
+	}
+	return g.sS()
 }
 
 func (g *Gen) urlOrEmpty() string {
@@ -208,11 +297,11 @@ func (g *Gen) tags() []TagKV {
 		case 0:
 			out = append(out, TagKV{K: k, Kind: "nil"})
 		case 1:
-			out = append(out, TagKV{K: k, Kind: "str", V: g.str()})
+			out = append(out, TagKV{K: k, Kind: "str", V: g.sU()})
 		case 2:
 			out = append(out, TagKV{K: k, Kind: "int", V: fmt.Sprint(g.r.intn(100))})
 		default:
-			out = append(out, TagKV{K: k, Kind: "safe", V: g.str()})
+			out = append(out, TagKV{K: k, Kind: "safe", V: g.rawStr()})
 		}
 	}
 	return out
@@ -228,13 +317,14 @@ func (g *Gen) Wrapper(kid *R, depth int) *R {
 	k1 := []*R{kid}
 	switch g.r.intn(n) {
 	case 0:
-		return &R{Op: "wrap", Kids: k1, S: []string{g.maybeEmpty()}}
+		return &R{Op: "wrap", Kids: k1, S: []string{g.maybeEmptyS()}}
 	case 1:
 		return &R{Op: "wrapf", Kids: k1, Fmt: g.fmtCall(depth, false, true)}
 	case 2:
-		return &R{Op: "withmessage", Kids: k1, S: []string{g.maybeEmpty()}}
+		return &R{Op: "withmessage", Kids: k1, S: []string{g.maybeEmptyS()}}
 	case 3:
-		return &R{Op: "withmessagef", Kids: k1, Fmt: g.fmtCall(depth, false, true)}
+		// error arguments of WithMessagef are only printed, not retained
+		return &R{Op: "withmessagef", Kids: k1, Fmt: g.fmtCall(depth, false, !g.Tokens)}
 	case 4:
 		return &R{Op: "withstack", Kids: k1}
 	case 5, 6:
@@ -242,7 +332,7 @@ func (g *Gen) Wrapper(kid *R, depth int) *R {
 	case 7, 8:
 		return &R{Op: "detail", Kids: k1, S: []string{g.maybeEmpty()}}
 	case 9:
-		return &R{Op: "issuelink", Kids: k1, S: []string{g.urlOrEmpty(), g.maybeEmpty()}}
+		return &R{Op: "issuelink", Kids: k1, S: []string{g.urlOrEmpty(), g.maybeEmptyS()}}
 	case 10:
 		return &R{Op: "telemetry", Kids: k1, Strs: g.keys()}
 	case 11:
@@ -252,7 +342,13 @@ func (g *Gen) Wrapper(kid *R, depth int) *R {
 	case 13:
 		return &R{Op: "assert", Kids: k1}
 	case 14:
-		return &R{Op: "mark", Kids: []*R{kid, g.Tree(min(depth-1, 2))}}
+		g.inRef++
+		ref := g.Tree(min(depth-1, 2))
+		if _, isNil := specText(ref); isNil {
+			ref = g.Leaf(0) // Mark(err, nil) is a programming error (it panics)
+		}
+		g.inRef--
+		return &R{Op: "mark", Kids: []*R{kid, ref}}
 	case 15:
 		return &R{Op: "safedetails", Kids: k1, Fmt: g.fmtCall(0, false, false)}
 	case 16:
@@ -266,7 +362,7 @@ func (g *Gen) Wrapper(kid *R, depth int) *R {
 	case 20:
 		return &R{Op: "handled", Kids: k1}
 	case 21:
-		return &R{Op: "handledmsg", Kids: k1, S: []string{g.str()}}
+		return &R{Op: "handledmsg", Kids: k1, S: []string{g.sU()}}
 	case 22:
 		return &R{Op: "handledindomain", Kids: k1, S: []string{"error domain: \"" + g.word() + "\""}}
 	case 23:
@@ -274,32 +370,33 @@ func (g *Gen) Wrapper(kid *R, depth int) *R {
 	case 24:
 		return &R{Op: "newassertwrapped", Kids: k1, Fmt: g.fmtCall(depth, false, true)}
 	case 25:
-		return &R{Op: "handledmsgf", Kids: k1, Fmt: g.fmtCall(depth, false, true)}
+		// error arguments of HandledWithMessagef are only printed, not retained
+		return &R{Op: "handledmsgf", Kids: k1, Fmt: g.fmtCall(depth, false, !g.Tokens)}
 	case 26:
-		return &R{Op: "handledindomainmsg", Kids: k1, S: []string{"error domain: \"" + g.word() + "\"", g.str()}}
+		return &R{Op: "handledindomainmsg", Kids: k1, S: []string{"error domain: \"" + g.word() + "\"", g.sU()}}
 	case 27:
-		return &R{Op: "pkgmsg", Kids: k1, S: []string{g.str()}}
+		return &R{Op: "pkgmsg", Kids: k1, S: []string{g.sU()}}
 	case 28:
 		return &R{Op: "pkgstack", Kids: k1}
 	case 29:
-		return &R{Op: "patherror", Kids: k1, S: []string{"open", "/tmp/" + g.word()}}
+		return &R{Op: "patherror", Kids: k1, S: []string{"open", "/tmp/" + g.pathWord()}}
 	case 30:
-		return &R{Op: "linkerror", Kids: k1, S: []string{"link", "/a/" + g.word(), "/b/" + g.word()}}
+		return &R{Op: "linkerror", Kids: k1, S: []string{"link", "/a/" + g.pathWord(), "/b/" + g.pathWord()}}
 	case 31:
 		return &R{Op: "syscallerror", Kids: k1, S: []string{"read"}}
 	case 32:
 		// fmt.Errorf with exactly one %w wrapping kid
-		f := []FP{{Kind: "lit", S: g.str()}, {Kind: "lit", S: ": "}, {Kind: "err", Verb: "w", R: kid}}
+		f := []FP{{Kind: "lit", S: g.sU()}, {Kind: "lit", S: ": "}, {Kind: "err", Verb: "w", R: kid}}
 		if g.r.chance(30) {
-			f = []FP{{Kind: "err", Verb: "w", R: kid}, {Kind: "lit", S: " ("}, {Kind: "lit", S: g.str()}, {Kind: "lit", S: ")"}}
+			f = []FP{{Kind: "err", Verb: "w", R: kid}, {Kind: "lit", S: " ("}, {Kind: "lit", S: g.sU()}, {Kind: "lit", S: ")"}}
 		}
 		return &R{Op: "fmterrorf", Fmt: f}
 	default:
 		kinds := []string{"unwrap", "cause", "both", "full", "empty", "safedet"}
 		k := g.r.pick(kinds)
-		r := &R{Op: "uwrap", S: []string{k, g.str()}, Kids: k1, Strs: []string{}}
+		r := &R{Op: "uwrap", S: []string{k, g.sU()}, Kids: k1, Strs: []string{}}
 		if k == "safedet" {
-			r.Strs = []string{g.str()}
+			r.Strs = []string{g.rawStr()}
 		}
 		return r
 	}
@@ -329,7 +426,7 @@ func (g *Gen) Multi(depth int) *R {
 			return &R{Op: "join", Kids: kids}
 		}
 		var f []FP
-		f = append(f, FP{Kind: "lit", S: g.str()})
+		f = append(f, FP{Kind: "lit", S: g.sU()})
 		for _, k := range kids {
 			if k.Op == "nil" {
 				continue
@@ -398,6 +495,60 @@ func (r *R) CountOps(m map[string]int) {
 			p.R.CountOps(m)
 		}
 	}
+}
+
+// stdAsByType: the standard library's errors.As for the same target types.
+func stdAsByType(e error, name string) (error, bool) {
+	switch name {
+	case "verifharness/ut/*ut.Plain":
+		var t *ut.Plain
+		if goerr.As(e, &t) {
+			return t, true
+		}
+	case "verifharness/ut/ut.Val":
+		var t ut.Val
+		if goerr.As(e, &t) {
+			return t, true
+		}
+	case "verifharness/ut/*ut.IsTag":
+		var t *ut.IsTag
+		if goerr.As(e, &t) {
+			return t, true
+		}
+	case "syscall/syscall.Errno":
+		var t syscall.Errno
+		if goerr.As(e, &t) {
+			return t, true
+		}
+	case "io/fs/*fs.PathError":
+		var t *fs.PathError
+		if goerr.As(e, &t) {
+			return t, true
+		}
+	case "os/*os.LinkError":
+		var t *os.LinkError
+		if goerr.As(e, &t) {
+			return t, true
+		}
+	case "os/*os.SyscallError":
+		var t *os.SyscallError
+		if goerr.As(e, &t) {
+			return t, true
+		}
+	case "github.com/cockroachdb/errors/errbase/*errbase.OpaqueErrno":
+		var t *errbase.OpaqueErrno
+		if goerr.As(e, &t) {
+			return t, true
+		}
+	case "github.com/cockroachdb/errors/errorspb/*errorspb.TestError":
+		var t *errorspb.TestError
+		if goerr.As(e, &t) {
+			return t, true
+		}
+	default:
+		return nil, false
+	}
+	return nil, true
 }
 
 // asByType implements errors.As for the concrete target types the generator uses.
